@@ -594,14 +594,8 @@ func ruleDistSiblings(c *Ctx, r *Report, rule string, enc, dec *ssa.Function) {
 		}
 		return strings.Join(s, " ; ")
 	}
-	const bitsT = "(+ (neg (call nlz32 $dist)) 30)"
-	const slotT = "(+ (and (shr $dist " + bitsT + ") 1) (shl " + bitsT + " 1) 2)"
-	encWant := map[string]string{ // shape -> condition set
-		"treeCodec:&C.posSlotCodecs[(call lenState $l)]":                                                                               "(lt $dist 4)",
-		"treeCodec:&C.posSlotCodecs[(call lenState $l)] ; treeReverseCodec:&C.posModel[(+ " + slotT[3:len(slotT)-3] + " -2)]":           "",
-		"treeCodec:&C.posSlotCodecs[(call lenState $l)] ; directCodec:(u8 (+ (neg (call nlz32 $dist)) 26)) ; treeReverseCodec:&C.alignCodec": "",
-	}
-	_ = encWant
+	bitsT := normTerm("(+ (neg (call nlz32 $dist)) 30)")
+	slotT := normTerm("(+ (and (shr $dist " + bitsT + ") 1) (shl " + bitsT + " 1) 2)")
 	// encoder side templates
 	okEnc, nEnc := true, 0
 	var why string
@@ -616,18 +610,18 @@ func ruleDistSiblings(c *Ctx, r *Report, rule string, enc, dec *ssa.Function) {
 		}
 		switch len(ep.evs) {
 		case 1:
-			if first.val != "$dist" && first.val != slotT {
+			if first.val != "$dist" && normTerm(first.val) != slotT {
 				okEnc, why = false, "a distance below 4 must be its own slot, and a slot below 4 can only be the distance; coded "+first.val
 			}
 		case 2:
-			if first.val != slotT {
+			if normTerm(first.val) != slotT {
 				okEnc, why = false, "position slot is "+first.val+"; the format requires 2*bits+2+((dist>>bits)&1) with bits = 30-nlz32(dist)"
 			}
-			if want := "&" + er + ".posModel[" + normTerm("(+ "+slotT+" -4)") + "]"; ep.evs[1].recv != want || ep.evs[1].val != "$dist" {
+			if want := "&" + er + ".posModel[" + normTerm("(+ "+slotT+" -4)") + "]"; normIdx(ep.evs[1].recv) != want || ep.evs[1].val != "$dist" {
 				okEnc, why = false, "slots 4..13 must code dist with posModel[posSlot-4]; found "+ep.evs[1].recv+" value "+ep.evs[1].val
 			}
 		case 3:
-			if first.val != slotT {
+			if normTerm(first.val) != slotT {
 				okEnc, why = false, "position slot is "+first.val
 			}
 			if ep.evs[1].val != "(shr $dist 4)" || ep.evs[1].recv != "" && ep.evs[1].recv != "(u8 "+normTerm("(+ "+bitsT+" -4)")+")" {
@@ -658,14 +652,14 @@ func ruleDistSiblings(c *Ctx, r *Report, rule string, enc, dec *ssa.Function) {
 				okDec, why = false, "for slots below 4 the distance is the slot; the decoder returns "+dp.ret
 			}
 		case 2:
-			if want := "&" + dr + ".posModel[" + normTerm("(+ "+slot+" -4)") + "]"; dp.evs[1].recv != want {
+			if want := "&" + dr + ".posModel[" + normTerm("(+ "+slot+" -4)") + "]"; normIdx(dp.evs[1].recv) != want {
 				okDec, why = false, "slots 4..13 must use posModel[posSlot-4]; found "+dp.evs[1].recv
 			}
-			if want := normTerm("(+ " + base + " " + dp.evs[1].val + ")"); dp.ret != want {
+			if want := normTerm("(+ " + base + " " + dp.evs[1].val + ")"); normTerm(dp.ret) != want {
 				okDec, why = false, "decoded distance is "+dp.ret+"; the format requires ((2|(slot&1)) << ((slot>>1)-1)) + reverse bits"
 			}
 		case 3:
-			if want := normTerm("(+ " + base + " (shl " + dp.evs[1].val + " 4) " + dp.evs[2].val + ")"); dp.ret != want {
+			if want := normTerm("(+ " + base + " (shl " + dp.evs[1].val + " 4) " + dp.evs[2].val + ")"); normTerm(dp.ret) != want {
 				okDec, why = false, "decoded distance is "+dp.ret+"; the format requires base + (direct bits << 4) + align bits"
 			}
 			if want := "(u8 " + normTerm("(+ (shr "+slot+" 1) -5)") + ")"; dp.evs[1].recv != "" && dp.evs[1].recv != want {
@@ -740,4 +734,13 @@ func boundsOf(conds []string, v string) string {
 		return "[" + strconv.FormatInt(lo, 10) + ",inf]"
 	}
 	return "[" + strconv.FormatInt(lo, 10) + "," + strconv.FormatInt(hi, 10) + "]"
+}
+
+// normIdx re-normalises the index term inside an address term `&recv.field[idx]`.
+func normIdx(t string) string {
+	i := strings.IndexByte(t, '[')
+	if i < 0 || !strings.HasSuffix(t, "]") {
+		return t
+	}
+	return t[:i+1] + normTerm(t[i+1:len(t)-1]) + "]"
 }
